@@ -33,7 +33,7 @@ def pnum(s):
 
 
 def run_case(case, mods):
-    main, TempoClock, Quant, routine = mods
+    main, TempoClock, Quant, routine, Routine = mods
     main.reset()
     lines = case['ops']
     out = [None] * (len(lines) + 1)
@@ -117,8 +117,26 @@ def run_case(case, mods):
                                     return
                                     yield
                                 return child_fn
-                            child = routine(make_child(slot, snapshot))
-                            clock.play(child, Quant(pnum(ws[2]), pnum(ws[3])))
+                            # every entry point that takes a quant, every accepted spelling of it
+                            via, form = (ws[4].split(':') + ['Q'])[:2] if len(ws) > 4 else ('clock', 'Q')
+                            qv, pv = pnum(ws[2]), pnum(ws[3])
+                            quant = Quant(qv, pv) if form == 'Q' else ([qv, pv] if form == 'L' else qv)
+                            fn_ = make_child(slot, snapshot)
+                            if via == 'clock':
+                                clock.play(routine(fn_), quant)
+                            elif via == 'rplay':
+                                routine(fn_).play(clock, quant)
+                            elif via == 'rrun':
+                                Routine.run(fn_, clock, quant)
+                            elif via == 'deco':
+                                routine.run(clock, quant)(fn_)
+                            elif via == 'resume':
+                                child = routine(fn_)
+                                child._clock = clock
+                                child.pause()
+                                child.resume(clock, quant)
+                            else:
+                                raise KeyError(via)
                             pending.append(slot)
                             continue
                         else:
@@ -160,6 +178,6 @@ def run(payload):
     sc3.init('nrt', 'ERROR')
     from sc3.base.main import main
     from sc3.base.clock import TempoClock, Quant
-    from sc3.base.stream import routine
-    mods = (main, TempoClock, Quant, routine)
+    from sc3.base.stream import routine, Routine
+    mods = (main, TempoClock, Quant, routine, Routine)
     return [run_case(c, mods) for c in payload['cases']]
